@@ -60,7 +60,7 @@ def write_source(kind, path, cols, *, row_group_size=None, decoy_rows=None):
 
         def table(cc):
             return fits.BinTableHDU.from_columns([fits.Column(name=k, array=v, format={
-                "f8": "D", "f4": "E", "i8": "K", "i4": "J", "u2": "I", "u4": "J"}[v.dtype.newbyteorder("=").str[1:]],
+                "f8": "D", "f4": "E", "i8": "K", "i4": "J", "i2": "I", "u2": "I", "u4": "J"}[v.dtype.newbyteorder("=").str[1:]],
                 **({"bzero": 2 ** (8 * v.dtype.itemsize - 1)} if v.dtype.kind == "u" else {})) for k, v in cc.items()])
 
         if decoy_rows is None:
